@@ -33,7 +33,7 @@ CHECKS = {
         note=NOTE, technique="bounded-exhaustive enumeration of signatures on the real macro; fixpoint compilation + fn-pointer coercion witnesses + executed client",
         ref="DESIGN.md §3 C03"),
     "C04": dict(
-        text="All 8 subsets S of three bounds (two of them instantiations of one generic trait) x sync / async / async ?Send x 5 declaration forms (inline, where, impl A+B, split, duplicated) x receiver by ref/by value "
+        text="All 8 subsets S of three bounds (two of them instantiations of one generic trait) x sync / async / async ?Send x 7 declaration forms (inline, where, impl A+B, split, duplicated, and `?Sized` next to the bounds inline / in impl) x receiver by ref/by value "
              "x 8 mock settings (none, mockall, mockall=false, mock_api only, mock_api+unimock, unimock=false, unimock=false+mockall, mock_api+mockall=false) x both crate features for single fns, and "
              "all 64 pairs (S1,S2) x receiver combinations x mock settings for two-fn modules (three-fn modules in thorough). Per state 48 runtime "
              "availability probes `implements!(X: Tr)` / `implements!(Impl<X>: Tr)` over probe types implementing exactly each subset in three auto-trait "
